@@ -472,7 +472,7 @@ func pairVals(t rtype) []interface{} {
 	case tFloat:
 		return []interface{}{2.5, 0.0, -1.0, math.NaN()}
 	case tString:
-		return []interface{}{"abc", "", "b"}
+		return []interface{}{"abc", "", "b", "010", "0x10", "1_000"}
 	case tDur:
 		return []interface{}{time.Second, time.Duration(0), -time.Minute}
 	case tTime:
@@ -519,6 +519,26 @@ func runMatrix(x *core.Ctx) {
 					if rt != tRegex {
 						checkExprXY(x, "\"x\" "+op+" "+lit, scopes)
 					}
+				}
+			}
+		}
+	}
+	// a stateful function on one side, a variable whose type changes between evaluations on the
+	// other: the function must advance exactly once per evaluation whatever the type does
+	for _, f := range []string{"count()", "sigma(\"x\")", "spread(\"x\")"} {
+		for _, op := range []string{"+", "-", "*", "/", "%", "==", "<", ">="} {
+			for _, t1 := range allTypes {
+				for _, t2 := range allTypes {
+					if t1 == t2 {
+						continue
+					}
+					v1, v2 := pairVals(t1), pairVals(t2)
+					var scopes []map[string]interface{}
+					for i, v := range []interface{}{v1[0], v1[len(v1)-1], v2[0], v2[len(v2)-1], v1[0], v2[0]} {
+						scopes = append(scopes, map[string]interface{}{"x": float64(i) * 1.5, "y": v})
+					}
+					checkExprXY(x, f+" "+op+" \"y\"", scopes)
+					checkExprXY(x, "\"y\" "+op+" "+f, scopes)
 				}
 			}
 		}
